@@ -116,9 +116,15 @@ func c03Scenarios(tier string) []*Scenario {
 
 func c03Oracle(sc *Scenario, rec *Rec, s *mc.Sched) []mc.Violation {
 	out := panicViolations(s)
-	rr := rec.RPCs[0]
-	rpc := &sc.RPCs[0]
-	ref := refOf(0, rpc)
+	// scenarios that first run another call to completion (option "seq0": what the library keeps from one
+	// call is there for the next) are judged on their last call
+	j := 0
+	if strings.Contains(sc.Opts, "seq0") {
+		j = len(sc.RPCs) - 1
+	}
+	rr := rec.RPCs[j]
+	rpc := &sc.RPCs[j]
+	ref := refOf(j, rpc)
 	add := func(clause, obs string) { out = append(out, mc.Violation{Clause: clause, Obs: obs, Detail: rr}) }
 
 	// handler side: setting headers after they were sent fails, before that it succeeds
